@@ -55,6 +55,8 @@ def parseRecs : Nat → List String → List Rec × List String
     | "disc" :: a :: rest => match nat? a with | some f => one (.disc f) rest | none => ([.bad "disc"], [])
     | "trunc" :: a :: rest => match nat? a with | some f => one (.trunc f) rest | none => ([.bad "trunc"], [])
     | "away" :: a :: rest => match nat? a with | some f => one (.away f) rest | none => ([.bad "away"], [])
+    | "reuse" :: a :: rest => match nat? a with | some f => one (.reuse f) rest | none => ([.bad "reuse"], [])
+    | "back" :: a :: rest => match nat? a with | some f => one (.back f) rest | none => ([.bad "back"], [])
     | "gone" :: a :: rest => match nat? a with | some f => one (.gone f) rest | none => ([.bad "gone"], [])
     | "app" :: a :: b :: rest =>
       match nat? a, bytes? b with | some f, some d => one (.app f d) rest | _, _ => ([.bad "app"], [])
@@ -85,7 +87,8 @@ def parseRecs : Nat → List String → List Rec × List String
 
 def renderRec : Rec → String
   | .new f => s!"new {f}" | .app f b => s!"app {f} {Hex.enc b}" | .ren f g => s!"ren {f} {g}"
-  | .trunc f => s!"trunc {f}" | .away f => s!"away {f}" | .gone f => s!"gone {f}" | .up => "up" | .disc f => s!"disc {f}" | .scan => "scan"
+  | .trunc f => s!"trunc {f}" | .away f => s!"away {f}" | .gone f => s!"gone {f}" | .reuse f => s!"reuse {f}"
+  | .back f => s!"back {f}" | .up => "up" | .disc f => s!"disc {f}" | .scan => "scan"
   | .inp f o p => s!"in {f} {o} {ofBool p}" | .out f o q id => s!"out {f} {o} {q} {id}"
   | .ack f o id => s!"ack {f} {o} {id}" | .com f o id => s!"com {f} {o} {id}" | .eof f n => s!"eof {f} {n}"
   | .idle => "idle" | .stuck => "stuck" | .crash => "crash" | .died => "died"
@@ -94,7 +97,7 @@ def renderRec : Rec → String
 
 def recName : Rec → String
   | .new _ => "new" | .app _ _ => "app" | .ren _ _ => "ren" | .trunc _ => "trunc" | .away _ => "away"
-  | .gone _ => "gone" | .up => "up"
+  | .gone _ => "gone" | .reuse _ => "reuse" | .back _ => "back" | .up => "up"
   | .disc _ => "disc" | .scan => "scan" | .inp _ _ _ => "in" | .out _ _ _ _ => "out" | .ack _ _ _ => "ack"
   | .com _ _ _ => "com" | .eof _ _ => "eof" | .idle => "idle" | .stuck => "stuck" | .crash => "crash"
   | .died => "died" | .saved _ _ => "saved" | .bad _ => "bad"
@@ -173,6 +176,10 @@ def stepRec (cfg : Cfg) (t : Table) (r : R) (rest : List Rec) : Rec → Option R
   | .ren f g => (app1 cfg r (.renameRotate f (1000 + g) g)).map fun r => { r with inos := r.inos ++ [g] }
   | .trunc f => app1 cfg r (.truncate f)
   | .away f => some { r with away := f :: r.away }
+  -- the file is deleted and its inode number is taken by a new, empty file staged outside the watched
+  -- directory: for file.d (jobs and offsets are keyed by the inode) the same source with new content
+  | .reuse f => (app1 cfg r (.truncate f)).map fun r => { r with away := f :: r.away }
+  | .back f => some { r with away := r.away.filter (· != f) }
   | .gone f =>
     -- maintenance released the job of a file whose name is gone: everything on the file must have
     -- been read (no complete line left), else the job would have been resumed
